@@ -19,6 +19,10 @@ func draft7Frags() []Frag {
 		{"itemsArray", J{"items": A{lInt, lX}}, g},
 		{"itemsArrayAddl", J{"items": A{lInt}, "additionalItems": lBoolT}, g},
 		{"itemsArrayAddlFalse", J{"items": A{lInt, lX}, "additionalItems": false}, g},
+		{"itemsArrayEmptyAddlFalse", J{"items": A{}, "additionalItems": false}, g},
+		{"itemsArrayEmptyAddl", J{"items": A{}, "additionalItems": lInt}, g},
+		{"itemsSchemaAddlIgnored", J{"items": lInt, "additionalItems": false}, g},
+		{"addlWithoutItems", J{"additionalItems": false}, g},
 		{"itemsSchemaAddl", J{"items": lInt, "additionalItems": false}, g},
 		{"addlItemsAlone", J{"additionalItems": false}, g},
 		{"itemsSchema", J{"items": lMin3}, g},
@@ -126,6 +130,10 @@ func FamilyDraft7(ts TmplSpec, pairs bool) []*Skeleton {
 	add("remote.chain-anchor", J{"$schema": d7http, "$id": "http://h/root.json", "$ref": "hop-anchor.json"}, uc)
 	add("remote.chain-idref", J{"$schema": d7https, "$id": "http://h/root.json", "$ref": "hop-idref.json"}, uc)
 	add("remote.chain3-anchor", J{"$schema": d7http, "$id": "http://h/root.json", "properties": J{"a": J{"$ref": "hop2.json"}}}, uc)
+	// the reference sits inside an embedded resource (a subschema with its own $id): the loaded
+	// document still inherits the draft the *document* declares at its root
+	add("remote.from-embedded-resource", J{"$schema": d7http, "$id": "http://h/root.json", "properties": J{"a": J{"$id": "http://h/sub/emb.json", "properties": J{"p": J{"$ref": "../anchor.json"}}}}}, uc)
+	add("remote.from-embedded-resource-idref", J{"$schema": d7https, "$id": "http://h/root.json", "definitions": J{"e": J{"$id": "emb2.json", "items": J{"$ref": "idref.json"}}}, "properties": J{"q": J{"$ref": "emb2.json"}}}, uc)
 	add("remote.anyOf", J{"$schema": d7http, "$id": "http://h/root.json", "anyOf": A{J{"$ref": "remote-with.json"}, J{"$ref": "remote-refsib.json"}}}, u)
 	return out
 }
@@ -144,7 +152,7 @@ func FamilyDyn(maxN int, sampleAbove int, seed int64, remote bool) []*Skeleton {
 	// the decoy resource declares the dynamic anchor too and always fails: entering it inside a
 	// branch whose failure is absorbed must leave no trace in the dynamic scope
 	decoy := J{"$id": decoyID, "$defs": J{"t": J{"$dynamicAnchor": "T", "const": 999}}, "not": J{}}
-	forms := []string{"frag", "rel", "ptr"}
+	forms := []string{"frag", "rel", "ptr", "ref+frag"}
 	tm := &sx.Tmpl{Depth: 0, MaxLen: 0}
 	marker := func(kind string, k int) J {
 		switch kind {
@@ -197,6 +205,10 @@ func FamilyDyn(maxN int, sampleAbove int, seed int64, remote bool) []*Skeleton {
 					cont["$dynamicRef"] = id(i) + "#T"
 				case "ptr":
 					cont["$dynamicRef"] = "#/$defs/t"
+				case "ref+frag":
+					// the same reference is first resolved as a plain $ref, then as a $dynamicRef
+					cont["$ref"] = "#T"
+					cont["$dynamicRef"] = "#T"
 				}
 			}
 			if entry == "interior" {
